@@ -306,7 +306,11 @@ Definition access_ok (c : case) (r : response) (k : checks) : bool :=
       && Z.eqb (a_exp a) (stored_exp k)
       && Z.eqb (a_iat a) (a_nbf a)
       && Z.leb (sec (cs_now0 c) - the_skew c) (a_iat a) && Z.leb (a_iat a) (sec (cs_now1 c) - the_skew c)
-      && forallb (fun e => string_in ("custom:" ++ fst e)%string (restrict (the_drop_at c) (rq_scopes rq)))
+      (* any other claim: a custom claim of a granted scope, or - token exchange with an actor
+         token - act naming that actor *)
+      && forallb (fun e => string_in ("custom:" ++ fst e)%string (restrict (the_drop_at c) (rq_scopes rq))
+                           || (is_exchange (cs_flow c) && negb (rq_actor rq =s "")
+                               && (fst e =s "act") && (snd e =s act_json (rq_actor rq))))
                  (a_extra a)
       && (if at_consistent c then readers_ok c k else true)
   end.
